@@ -62,16 +62,49 @@ impl ExponentialBackoff {
     }
 }
 
+/// Converts seconds to a `Duration`, saturating at `Duration::MAX` (and at zero for
+/// negative or NaN input) instead of panicking.
+fn saturating_duration_from_secs_f64(secs: f64) -> Duration {
+    if secs.is_nan() || secs <= 0.0 {
+        Duration::ZERO
+    } else if secs >= Duration::MAX.as_secs_f64() {
+        Duration::MAX
+    } else {
+        Duration::from_secs_f64(secs)
+    }
+}
+
+/// `initial * multiplier^attempt`, capped at `max`: total for every attempt number.
+fn exponential_interval(
+    initial: Duration,
+    multiplier: f64,
+    attempt: usize,
+    max: Option<Duration>,
+) -> Duration {
+    if initial.is_zero() {
+        return Duration::ZERO;
+    }
+    // `powi` takes an i32: clamp huge attempt numbers instead of letting them wrap
+    let exponent = i32::try_from(attempt).unwrap_or(i32::MAX);
+    let secs = initial.as_secs_f64() * multiplier.powi(exponent);
+    // the cap applies before the value has to fit into a `Duration`
+    let interval = saturating_duration_from_secs_f64(secs);
+
+    if let Some(max) = max {
+        interval.min(max)
+    } else {
+        interval
+    }
+}
+
 impl IntervalFunction for ExponentialBackoff {
     fn next_interval(&self, attempt: usize) -> Duration {
-        let multiplier = self.multiplier.powi(attempt as i32);
-        let interval = self.initial_interval.mul_f64(multiplier);
-
-        if let Some(max) = self.max_interval {
-            interval.min(max)
-        } else {
-            interval
-        }
+        exponential_interval(
+            self.initial_interval,
+            self.multiplier,
+            attempt,
+            self.max_interval,
+        )
     }
 }
 
@@ -126,20 +159,18 @@ impl ExponentialRandomBackoff {
             Some(bits) => min + (max - min) * ((bits >> 11) as f64 / (1u64 << 53) as f64),
             None => rng.random_range(min..=max),
         };
-        Duration::from_secs_f64(randomized.max(0.0))
+        saturating_duration_from_secs_f64(randomized)
     }
 }
 
 impl IntervalFunction for ExponentialRandomBackoff {
     fn next_interval(&self, attempt: usize) -> Duration {
-        let multiplier = self.multiplier.powi(attempt as i32);
-        let interval = self.initial_interval.mul_f64(multiplier);
-
-        let capped = if let Some(max) = self.max_interval {
-            interval.min(max)
-        } else {
-            interval
-        };
+        let capped = exponential_interval(
+            self.initial_interval,
+            self.multiplier,
+            attempt,
+            self.max_interval,
+        );
 
         self.randomize(capped)
     }
